@@ -126,7 +126,7 @@ def explore(chk, rnd, tier):
         # model that faithfully mirrors a wrong implementation)
         from ..common import as_multiset, enc_val
         for c, g, l, v in res:
-            if l["r"] == "ok" and not c.get("mixed"):
+            if l["r"] == "ok" and not c.get("mixed") and not (c.get("tag") or "").startswith("ctx:"):
                 if as_multiset(dec_val(l["v"])) != as_multiset(dec_val(enc_val(textbook(c)))):
                     chk.add_violation("model-vs-textbook", {"sql": c["sql"], "doc": c["doc"], "model": l, "textbook": textbook(c)})
                     break
